@@ -115,6 +115,7 @@ class Tr:
         self.kind = cfg["kind"]  # fun | rfun | proc | gen | rgen  (| inl while inlining a helper)
         self.mod = None          # module of `fn`: set by translate_function, enables inlining
         self.stack = []          # helpers being inlined
+        self.unpack = []         # continuations of `a, b, .. = helper(..)` (innermost last)
 
     # ---- helper inlining ---------------------------------------------------------------------
     def lift(self, t, ty):
@@ -242,6 +243,84 @@ class Tr:
             raise Unsupported("helper %s always raises" % fn.name)
         return t, ty
 
+    def unpack_call(self, s, rest, env):
+        """`a, b, .. = helper(..)` for a private helper that returns tuples: the helper's body is
+        translated in place (parameters bound to the translated arguments, as in `inline`), and at
+        each of its `return (e1, e2, ..)` the caller goes on with the targets bound to the values -
+        so a function split into steps that hand several values on normalises to the unsplit code.
+        None if the right-hand side is not such a call."""
+        e = s.value
+        r = self.resolve(e.func)
+        if r is None or ast.unparse(e.func) in self.calls:
+            return None
+        fn, takes_self = r
+        body = _body(fn)
+        if len(body) == 1 and isinstance(body[0], ast.Raise):
+            return None
+        if fn in self.stack or len(self.stack) >= 6:
+            raise Unsupported("recursive helper " + fn.name)
+        a = fn.args
+        if a.vararg or a.kwarg or a.kwonlyargs or a.posonlyargs or fn.decorator_list and not all(
+                ast.unparse(d) == "staticmethod" for d in fn.decorator_list) \
+                or any(isinstance(x, ast.Starred) for x in e.args):
+            raise Unsupported("signature of helper " + fn.name)
+        names = [x.arg for x in a.args][1 if takes_self else 0:]
+        dflt = dict(zip(names[len(names) - len(a.defaults):], a.defaults))
+        if len(e.args) > len(names):
+            raise Unsupported("arguments of helper " + fn.name)
+        given = dict(zip(names, e.args))
+        for kw in e.keywords:
+            if kw.arg is None or kw.arg not in names or kw.arg in given:
+                raise Unsupported("keyword of helper " + fn.name)
+            given[kw.arg] = kw.value
+        henv = {k: v for k, v in env.items() if k == "self" or k.startswith("self.")}
+        for n in names:
+            node = given.get(n, dflt.get(n))
+            if node is None:
+                raise Unsupported("missing argument %s of %s" % (n, fn.name))
+            t, ty = self.expr(node, env if n in given else {})
+            if is_rtype(ty) or ty == "RAISE":
+                raise Unsupported("raising argument of helper " + fn.name)
+            henv[n] = (t, ty)
+        targets = s.targets[0].elts
+        depth = len(self.stack)
+
+        def k(ret, env_h):
+            v = ret.value
+            if not isinstance(v, ast.Tuple) or len(v.elts) != len(targets):
+                raise Unsupported("helper %s does not return %d values" % (fn.name, len(targets)))
+            env_c = dict(env)
+            lets = []
+            for tg, x in zip(targets, v.elts):
+                t, ty = self.expr(x, env_h)
+                if is_rtype(ty) or ty in ("RAISE", "UNBOUND", "TESTAST"):
+                    raise Unsupported("returned value of type %s in %s" % (ty, fn.name))
+                if re.match(r"^[A-Za-z_][A-Za-z0-9_']*$", t):
+                    env_c[tg.id] = (t, ty)
+                else:
+                    lets.append((cname(tg.id), t))
+                    env_c[tg.id] = (cname(tg.id), ty)
+            # the caller's own statements: outside the helper again
+            saved_stack, saved_unpack = self.stack[depth:], self.unpack[:]
+            del self.stack[depth:]
+            self.unpack.pop()
+            try:
+                body_, bty = self.block(rest, env_c)
+            finally:
+                self.stack.extend(saved_stack)
+                self.unpack[:] = saved_unpack
+            for n_, t_ in reversed(lets):
+                body_ = "(let %s := %s in\n  %s)" % (n_, t_, body_)
+            return body_, bty
+        self.stack.append(fn)
+        self.unpack.append(k)
+        try:
+            # (falling off the end of the helper would return None: nothing to unpack)
+            return self.block(body + [ast.Return(value=None)], henv)
+        finally:
+            self.unpack.pop()
+            self.stack.pop()
+
     # ---- expressions: return (coq text, type)
     def expr(self, e, env):
         if isinstance(e, ast.Constant):
@@ -363,6 +442,14 @@ class Tr:
                 key = "<%s>.%s" % (rty, e.func.attr)
                 if key in self.calls:
                     return self.calls[key](self, e, env, rt)
+            if isinstance(e.func, ast.Attribute) and isinstance(e.func.value, ast.Call):
+                # a method of a computed receiver (`fh.to_pandas().max()`): dispatched by its type
+                try:
+                    rt, rty = self.expr(e.func.value, env)
+                except Unsupported:
+                    rt, rty = None, None
+                if rty is not None and "<%s>.%s" % (rty, e.func.attr) in self.calls:
+                    return self.calls["<%s>.%s" % (rty, e.func.attr)](self, e, env, rt)
             if callee == "getattr" and len(e.args) == 3 and not e.keywords \
                     and ast.unparse(e.args[0]) == "self" and isinstance(e.args[1], ast.Constant) \
                     and isinstance(e.args[1].value, str):
@@ -547,6 +634,12 @@ class Tr:
                 and isinstance(s.value.value, str):
             return self.block(rest, env)
         if isinstance(s, ast.Assign) and len(s.targets) == 1 \
+                and isinstance(s.targets[0], ast.Tuple) and isinstance(s.value, ast.Call) \
+                and all(isinstance(x, ast.Name) for x in s.targets[0].elts):
+            r = self.unpack_call(s, rest, env)
+            if r is not None:
+                return r
+        if isinstance(s, ast.Assign) and len(s.targets) == 1 \
                 and isinstance(s.targets[0], ast.Tuple) and isinstance(s.value, ast.Tuple) \
                 and len(s.targets[0].elts) == len(s.value.elts) \
                 and all(isinstance(x, ast.Name) for x in s.targets[0].elts):
@@ -610,6 +703,8 @@ class Tr:
             if self.kind in ("rfun", "proc", "rgen", "inl"):
                 return "Err", self.ret_type()
             raise Unsupported("raise in a function configured as total")
+        if isinstance(s, ast.Return) and self.unpack:
+            return self.unpack[-1](s, env)
         if isinstance(s, ast.Return):
             if self.kind == "inl":
                 if s.value is None or (isinstance(s.value, ast.Constant) and s.value.value is None):
